@@ -821,9 +821,13 @@ func (d *Decoder) DecodePackedFloat32() ([]float32, error) { //nolint: dupl // F
 	}
 	d.offset += n
 	packedDataStart := d.offset
+	// the declared length must fit in the remaining data before it is used to pre-allocate
+	if l > uint64(len(d.p)-d.offset) {
+		return nil, io.ErrUnexpectedEOF
+	}
 	res = make([]float32, 0, l/4)
 	for nRead < l {
-		if d.offset >= len(d.p) {
+		if len(d.p)-d.offset < 4 {
 			return nil, io.ErrUnexpectedEOF
 		}
 		v := binary.LittleEndian.Uint32(d.p[d.offset:])
@@ -861,7 +865,7 @@ func (d *Decoder) DecodePackedFloat64() ([]float64, error) {
 	d.offset += n
 	packedDataStart := d.offset
 	for nRead < l {
-		if d.offset >= len(d.p) {
+		if len(d.p)-d.offset < 8 {
 			return nil, io.ErrUnexpectedEOF
 		}
 		v := binary.LittleEndian.Uint64(d.p[d.offset:])
